@@ -6,8 +6,10 @@ corruption along every possible path, against an independent chain walk (``ecdsa
 """
 import hashlib
 import itertools
+from collections.abc import Mapping
 import json
 import multiprocessing
+import os
 import re
 
 from ..framework import Check, Violation
@@ -15,7 +17,10 @@ from ..xplore import HarnessError
 from .. import env
 from ..refs import certref as R
 from ..gen import certs as G
+from ..certharness import verdict, same_hex
 
+LEDGER_ROOT = ("0490f5c9d15a0134bb019d2afd0bf297149738459706e7ac5be4abc350a1f818057224fce12ec9a65de18ec34d6e8c24"
+               "db927835ea1692b14c32e9836a75dad609")
 NAMES = list(G.V1_NAMES)
 PARENTS = ["root"] + NAMES
 # option 0 = element absent; 1..10 = (signed_by, tweaked)
@@ -103,13 +108,23 @@ class C06(Check):
         self.pre_violations = self.calibrate()
 
     def calibration_probes(self):
-        txt = open(env.REPO + "/docs/attestation.md").read()
-        blocks = re.findall(r"```json\n(.*?)```", txt, re.S)
-        docs = [d for d in map(json.loads, blocks) if d.get("version") == 1]
-        m = re.search(r"issuer public key was `([0-9a-f]{130})`", txt)
-        if not m or not docs:
-            raise HarnessError("calibration: version-1 sample / Ledger root key not found in docs/attestation.md")
-        doc, root = docs[0], m.group(1)
+        # the sample certificate is read from the documentation; Ledger's published issuer key is a
+        # fact of the outside world (ledgerblue endorsementSetup.py), not of the wording of the docs
+        docs = []
+        try:
+            txt = open(os.path.join(env.REPO, "docs/attestation.md")).read()
+            for block in re.findall(r"```json\n(.*?)```", txt, re.S):
+                try:
+                    d = json.loads(block)
+                except ValueError:
+                    continue
+                if isinstance(d, dict) and d.get("version") == 1:
+                    docs.append(d)
+        except OSError:
+            pass
+        if not docs:
+            return []
+        doc, root = docs[0], LEDGER_ROOT
         probes = [("intact", doc, root)]
         for i, e in enumerate(doc["elements"]):
             for fld, pos in (("message", 3), ("signature", 20)) + ((("tweak", 5),) if "tweak" in e else ()):
@@ -421,22 +436,22 @@ class C06(Check):
     def mismatch(self, doc, exp, got):
         """list of (clause, target, detail) where implementation and reference differ."""
         out = []
-        if not isinstance(got, dict) or set(got) != set(doc["targets"]):
-            return [("targets", None, "result keys %r" % (sorted(got) if isinstance(got, dict) else got,))]
+        if not isinstance(got, Mapping) or set(got) != set(doc["targets"]):
+            return [("targets", None, None)]
         for t, ev in exp.items():
-            g = got[t]
+            g = verdict(got[t])
             if ev[0] == R.OPEN:
                 continue
-            if ev[0] == R.OK:
-                if not (isinstance(g, tuple) and g[0] is True):
+            if g is None:
+                out.append(("result-shape", t, None))
+            elif ev[0] == R.OK:
+                if g[0] != "ok":
                     out.append(("rejected-valid", t, None))
-                elif len(g) != 3 or g[1] != ev[1] or g[2] != ev[2]:
+                elif not (isinstance(g[1], str) and same_hex(g[1], ev[1]) and same_hex(g[2], ev[2])):
                     out.append(("value", t, None))
             else:
-                if isinstance(g, tuple) and g[0] is True:
+                if g[0] == "ok":
                     out.append(("accepted-invalid", t, None))
-                elif not (isinstance(g, tuple) and len(g) == 2 and g[0] is False):
-                    out.append(("result-shape", t, None))
                 elif g[1] != ev[1]:
                     out.append(("first-failing-name", t, None))
         return out
